@@ -2,6 +2,8 @@
    This file contains only statements closed by [exact] and their Print Assumptions. *)
 From Coq Require Import ZArith List Bool Reals SpecFloat.
 From VQ Require Import Num Model.Vec Model.Codec Model.B32 Proofs.CodecProofs Proofs.B32Proofs Glue.CodecGlue.
+From Coq Require Import Reals.
+From VQ Require Import Model.GroupCat Model.CastBits Proofs.CastBitsProofs Glue.CastBitsGlue.
 Import ListNotations.
 Open Scope Z_scope.
 
@@ -157,3 +159,48 @@ Theorem C04_tie_no_new_write_through_view_handles :
   inv_view_writes.inv_view_writes = pinned_inv_view_writes.
 Proof. exact (@Pin_inv_view_writes.pin_inv_view_writes). Qed.
 Print Assumptions C04_tie_no_new_write_through_view_handles.
+
+(* ---- LFQ under a precision cast (Model/CastBits.v): the index is read off the emitted code, whatever the cast does *)
+Theorem C04_lfq_bit_from_code_decodes :
+  forall (c : R -> R) (s x : R), (0 < s)%R -> decode_bit s (bit_from_code (code_of c s x)) = code_of c s x.
+Proof. exact (@CastBitsProofs.bit_from_code_decodes). Qed.
+Print Assumptions C04_lfq_bit_from_code_decodes.
+
+Theorem C04_lfq_bit_from_input_refuted :
+  exists (c : R -> R) (s x : R), (0 < s)%R /\ decode_bit s (bit_from_input x) <> code_of c s x.
+Proof. exact (@CastBitsProofs.bit_from_input_refuted). Qed.
+Print Assumptions C04_lfq_bit_from_input_refuted.
+
+Theorem C04_lfq_bit_from_input_ok_when_sign_kept :
+  forall (c : R -> R) (s x : R), ((0 < c x)%R <-> (0 < x)%R) -> decode_bit s (bit_from_input x) = code_of c s x.
+Proof. exact (@CastBitsProofs.bit_from_input_ok_when_sign_kept). Qed.
+Print Assumptions C04_lfq_bit_from_input_ok_when_sign_kept.
+
+Theorem C04_lfq_index_bits_roundtrip :
+  forall bs : list bool, index_to_bits (Datatypes.length bs) (bits_to_index bs) = bs.
+Proof. exact (@CastBitsProofs.index_to_bits_of_bits). Qed.
+Print Assumptions C04_lfq_index_bits_roundtrip.
+
+Theorem C04_lfq_forward_roundtrip_under_any_cast :
+  forall (c : R -> R) (s : R) (xs : list R), (0 < s)%R ->
+  let '(q, n) := lfq_forward c s xs in (n < 2 ^ Datatypes.length xs)%nat /\ lfq_decode s (Datatypes.length xs) n = q.
+Proof. exact (@CastBitsProofs.lfq_forward_roundtrip). Qed.
+Print Assumptions C04_lfq_forward_roundtrip_under_any_cast.
+
+Theorem C04_lfq_bits_from_input_forward_refuted :
+  exists (c : R -> R) (s : R) (xs : list R), (0 < s)%R /\
+  let '(q, n) := lfq_forward_bits_from_input c s xs in lfq_decode s (Datatypes.length xs) n <> q.
+Proof. exact (@CastBitsProofs.lfq_forward_bits_from_input_refuted). Qed.
+Print Assumptions C04_lfq_bits_from_input_forward_refuted.
+
+Theorem C04_tie_lfq_bits_read_off_the_code :
+  bit_source_of p_lfq_codec.p_lfq_codec = FromCode.
+Proof. exact (@CastBitsGlue.source_bits_from_code). Qed.
+Print Assumptions C04_tie_lfq_bits_read_off_the_code.
+
+Theorem C04_lfq_source_forward_roundtrip :
+  forall (c : R -> R) (s : R) (xs q : list R) (n : nat), (0 < s)%R ->
+  forward_of (bit_source_of p_lfq_codec.p_lfq_codec) c s xs = Some (q, n) ->
+  (n < 2 ^ Datatypes.length xs)%nat /\ lfq_decode s (Datatypes.length xs) n = q.
+Proof. exact (@CastBitsGlue.source_forward_roundtrip). Qed.
+Print Assumptions C04_lfq_source_forward_roundtrip.
